@@ -10,6 +10,9 @@ from .core.effects import Effects
 from .c02 import exception_class
 
 RULES = {
+    "C05.7": "two topics never write the same unit (= C06.1's record clause): the allocator hands every new topic a copy of its own block record; every store to that record's "
+             "limit is DEFAULT_BLOCK_SIZE. A record left with the limit of a multi-unit allocation gives the next new topic an oversized block on a one-unit reservation: its "
+             "writer overwrites the neighbouring topic's entries, which are then never delivered",
     "C05.6": "a block is never both sealed and active (= C04.1): once the writer has appended its current block to the reader chain, no path returns before the successor block is "
              "installed. A block that is in the sealed chain and still the active tail is read twice - once as a chain block, once through the tail snapshot - so its unconsumed "
              "entries are delivered twice",
@@ -382,6 +385,8 @@ def run(ctx):
     check_writer_guards_held(ctx, facts)
     from .c04 import check_rotation
     check_rotation(ctx, facts, rid="C05.6")
+    from .c06 import check_cursor_limit
+    check_cursor_limit(ctx, facts, rid="C05.7")
     ctx.assume("schedules are not enumerated: the check decides the absence of the atomicity-violation shapes that make duplicate delivery possible; ordering between producers, "
                "the stale pre-lock writer snapshot in the batch path and fairness are NOT decided")
     ctx.assume("C05.1 treats distinct MIR locals as distinct acquisitions; a value carried across loop iterations under re-acquisitions of the same local is not tracked")
